@@ -15,7 +15,7 @@ RULE = ("for each (chain, layout, key): the plaintext data directory and a copy 
         "other and to the model. Keys: every length 1..64 (quick: 1,2,3,5,7,8,9,16,31,33,64) x {all-zero, random, 0xff.., single-bit}; "
         "layouts from C03 chosen so that offsets are not multiples of the key length, blocks exceed the 32 KiB buffer, seeks go backward, "
         "forward within and beyond the buffer and offsets exceed 4 GiB (seek kinds counted from the H2 fetch log). "
-        "distinct = (key length, key class, layout assignment, gaps, sparse) signatures")
+        "In symlinked layouts xor.dat is a link (absolute / relative) to a key file of another name. distinct = (key length, key class, layout assignment, gaps, sparse) signatures")
 
 QUICK_LENS = [1, 2, 3, 5, 7, 8, 9, 16, 31, 33, 64]
 
